@@ -445,10 +445,16 @@ pub fn run(tier: &str, seed: u64, out: &str, exe: &str) {
     // ---- (d) single searches of many positions: every special root (with colour mirrors) and
     // bare-material positions x every go set (thorough: also every state one ply from a root)
     if !rep.saturated() {
-        let roots = crate::roots::all_roots().unwrap_or_else(|e| {
+        let mut roots = crate::roots::all_roots().unwrap_or_else(|e| {
             eprintln!("MACHINERY ERROR: {}", e);
             std::process::exit(2)
         });
+        // positions with move lists as long as chess allows (218 legal moves, 132 tactical moves):
+        // a root list or an ordering buffer of fixed capacity must still yield a legal answer
+        roots.extend(crate::roots::extreme_roots().unwrap_or_else(|e| {
+            eprintln!("MACHINERY ERROR: {}", e);
+            std::process::exit(2)
+        }));
         let mut fens: Vec<String> = roots.iter().map(|r| r.pos.fen(0, 1)).collect();
         for f in BARE {
             let p = Pos::from_fen(f).unwrap();
